@@ -39,6 +39,8 @@ def compile_action(rule):
             b += [INSERT, PUT_GLYPH8, it["cls"] - 1, NEXT]
         if it["adv"] >= 0:
             b += push(it["adv"]) + [ATTR_SET, SLAT_ADVX]
+        if it.get("advy", -1) >= 0:       # (not part of GdlRef: used by hand-made fonts)
+            b += push(it["advy"]) + [ATTR_SET, 1]
         if it["user"] >= 0:
             b += push(it["user"]) + [IATTR_SET, SLAT_USER, 0]
         if it.get("user2", -1) >= 0:
